@@ -337,7 +337,11 @@ int main (int argc, char *argv[]) {
                 }
             }
         }
-        write_data(zck, data + start, in_size - (start + matched));
+        /* Write out what is left of this block, except for the bytes that are
+         * held back as a possible beginning of the split string (when that
+         * match began in an earlier block, all of this block is held back) */
+        if(in_size > start + matched)
+            write_data(zck, data + start, in_size - (start + matched));
     }
     /* Bytes held back because they might be the beginning of the split string
      * are part of the input if it ends there */
